@@ -94,6 +94,20 @@ func chainPurity(w *mon.W, class string, relevant func(rule string) bool) {
 		group := k + 1
 		n := 1 + r.IntN(5)
 		s := chain.FullConformant(r, n, 10)
+		if k%4 == 0 && n >= 2 {
+			// (families with a second chain over the same lower delegations: the delegation next to the
+			// invoker carries a policy, handed over as a slice with spare capacity, and so does the root)
+			var paths []gen.Path
+			gen.Paths(s.Args, nil, &paths, 3)
+			for _, li := range []int{0, n - 1} {
+				if len(s.Links[li].Pol) == 0 {
+					if st, ok := gen.StmtWithTruth(r, s.Args, paths, 1, true); ok {
+						s.Links[li].Pol = append(s.Links[li].Pol, st)
+					}
+				}
+			}
+			s.Links[0].PolSpare, s.Links[0].PolIPLD = true, false
+		}
 		switch k % 4 {
 		case 1:
 			deviate(r, s)
@@ -235,7 +249,7 @@ func chainPurity(w *mon.W, class string, relevant func(rule string) bool) {
 			l.Pol = append(ref.Policy{}, l.Pol...)
 			var paths []gen.Path
 			gen.Paths(s.Args, nil, &paths, 3)
-			if st, ok := gen.StmtWithTruth(r, s.Args, paths, 1, r.IntN(2) == 0); ok {
+			if st, ok := gen.StmtWithTruth(r, s.Args, paths, 1, k%8 == 0); ok {
 				l.Pol = append(l.Pol, st)
 			}
 			s3.Links[up] = l
